@@ -81,6 +81,10 @@ def gen_case(rng):
             sp = dict(sp, dims=[sp["dims"][i] for i in p], labels=[sp["labels"][i] for i in p], kinds=[sp["kinds"][i] for i in p],
                       ldtypes=[sp["ldtypes"][i] for i in p], values=np.transpose(sp["values"], p).copy())
         specs.append(sp)
+    if rng.random() < 0.2:
+        # 32-bit integer data beyond 2**24 (counts, ids): filling gaps with NaN makes them float64, which holds them exactly
+        for sp in specs:
+            sp["values"] = (np.asarray(sp["values"]) + 2 ** 24 + 1).astype(np.int32)
     align = rng.random() < 0.4
     keys = rng.choice([None, 'str', 'int'])
     if keys == 'str':
